@@ -132,7 +132,9 @@ def run(spec: Dict[str, Any]) -> Dict[str, Any]:
 
 
 def main():
-    spec = json.load(open(sys.argv[1]))
+    import pickle
+
+    spec = pickle.load(open(sys.argv[1], "rb"))
     out = run(spec)
     json.dump(out, open(sys.argv[2], "w"))
 
